@@ -4,6 +4,7 @@ package props
 // model, and the rapid generator of application histories ("apphist").
 
 import (
+	"bytes"
 	"encoding/base64"
 	"fmt"
 	"reflect"
@@ -126,6 +127,8 @@ type Chain struct {
 	fail     failFn
 
 	Focus         string // "" | "validators": generator bias
+	HasHot        bool   // most transactions come from HotSender (long histories: per-sender state grows)
+	HotSender     int
 	PoolKeys      int    // how many universe keys candidate configurations may contain (default nKeyperKeys)
 	CheckReplicas bool // C09 oracle
 	CheckModel    bool // C11 oracle
@@ -508,6 +511,36 @@ func (c *Chain) refreshPool(t *rapid.T) {
 		}
 		act := last.Activation + uint64(rapid.SampledFrom([]int{0, 0, 1, 3, 10}).Draw(t, "actD"))
 		idx := last.Index + uint64(rapid.SampledFrom([]int{1, 1, 1, 2}).Draw(t, "idxD"))
+		if i > 0 && rapid.Bool().Draw(t, "nearTwin") {
+			// a candidate that differs from an earlier one in exactly one field: votes for the two must
+			// never be pooled ("voted for that identical configuration")
+			o := c.pool[rapid.IntRange(0, i-1).Draw(t, "twinOf")].GetBatchConfig()
+			oa := append([][]byte{}, o.Keypers...)
+			act, idx, th = o.ActivationBlockNumber, o.KeyperConfigIndex, int(o.Threshold)
+			switch f := rapid.SampledFrom([]string{"threshold", "threshold", "activation", "order", "member", "index"}).Draw(t, "twinField"); {
+			case f == "threshold" && len(oa) >= 2:
+				th = th%len(oa) + 1
+			case f == "activation":
+				act++
+			case f == "order" && len(oa) >= 2:
+				oa[0], oa[1] = oa[1], oa[0]
+			case f == "member":
+				r := uni.Addrs[rapid.IntRange(0, pk-1).Draw(t, "twinMember")].Bytes()
+				dup := false
+				for _, a := range oa {
+					dup = dup || bytes.Equal(a, r)
+				}
+				if !dup {
+					oa[len(oa)-1] = r
+				}
+			case f == "index":
+				idx++
+			}
+			addrs = nil
+			for _, a := range oa {
+				addrs = append(addrs, common.BytesToAddress(a))
+			}
+		}
 		c.pool = append(c.pool, shmsg.NewBatchConfig(act, addrs, uint64(th), idx))
 	}
 }
@@ -751,6 +784,9 @@ func cfgShort(bc *shmsg.BatchConfig) string {
 
 // genSender picks a sender index: mostly a member of some configuration.
 func (c *Chain) genSender(t *rapid.T) int {
+	if c.HasHot && rapid.IntRange(0, 9).Draw(t, "hot") < 7 {
+		return c.HotSender
+	}
 	mem := c.memberIdx()
 	sel := rapid.IntRange(0, 19).Draw(t, "senderSel")
 	switch {
@@ -780,6 +816,11 @@ func (c *Chain) genTx(t *rapid.T) ([]byte, string) {
 		s := c.genSender(t)
 		payload := rapid.SliceOfN(rapid.Byte(), 0, 40).Draw(t, "badproto")
 		return apphist.SignRaw(payload, uni.Keys[s]), fmt.Sprintf("signedgarbage(s%d,%x)", s, payload)
+	case sel == 3:
+		// a well-formed envelope (chain id, fresh nonce, signature) without the optional inner message
+		s := c.genSender(t)
+		n := c.nextNonce()
+		return uni.MakeTx(s, apphist.ChainID, n, nil), fmt.Sprintf("s%d/n%d/nomsg", s, n)
 	}
 	s := c.genSender(t)
 	msg, tag := c.genMessage(t, s)
